@@ -9,10 +9,12 @@ CONSTANTS
   CachePutBeforeDbWrite = FALSE
   BulkVersionsUsesEpoch = FALSE
   FillPolicy = "if_same_generation"
+  FlushIgnoresCleanFlag = TRUE
   Export = FALSE
   MaxSteps = 3
   WithReads = TRUE
   SplitReads = TRUE
+  WithExt = FALSE
 INIT MCInit
 NEXT MCNext
 VIEW View
